@@ -1,4 +1,6 @@
-// Unit C17 - stack-pointer offsets hold on every execution, for every architecture.
+// Unit C13 - the constants analysis (lib/analysis/constants.rs) is a sound forward data-flow analysis:
+// per-function contracts (Constant / Constants / ConstantsAnalysis), the concretisation gamma, local soundness of
+// `trans`, `join` an upper bound, and the abstract-interpretation lemma L-AI for this instance.
 // Generated file = this template + the real text of the items named in the `//@` holes.
 #![feature(allocator_api)]
 #![allow(unused_imports, unused_variables, dead_code, unused_mut, non_snake_case, unused_parens, unused_braces, deprecated)]
@@ -23,7 +25,7 @@ verus! {
 //@ include prelude/rc_asref.rs
 //@ include prelude/location_hash.rs
 //@ include prelude/fmt_option.rs
-//@ include prelude/hashmap_into_items.rs
+//@ include prelude/scalar_hash.rs
 //@ include units/C11/error_from.rs
 //@ mode contracts-only C15
 //@ include units/C15/error_from_string.rs
@@ -53,13 +55,12 @@ use vstd::std_specs::iter::IteratorSpec;
 //@ mode contracts-only C04
 //@ include units/C04/builders.rs
 //@ mode full
-// il functions the analysis calls that no other unit has under contract (proved HERE)
-//@ include units/C17/il_extra.rs
+//@ include units/C13/il_scalars.rs
 proof fn vf_canary_il() ensures false {}
 } // mod il
 
 // scalar substitution (C04); its own module because subst.rs hoists falcon's nested `struct Map<F>`,
-// which would shadow vstd's `Map` inside `mod il`
+// which would shadow vstd's `Map` inside `mod il`  (same layout as units/C17/unit.rs)
 pub mod il_subst {
 use super::*;
 use super::il::*;
@@ -76,27 +77,20 @@ use super::il::*;
 //@ mode full
 } // mod executor
 
-// the concrete semantics the property talks about, the concretisation, the arithmetic of translations
-pub mod spo_theory {
-use super::*;
-use super::il::*;
-use super::il_subst::{replace_spec, repl_g, map_spec, map_result, env_upd, lemma_subst_eval};
-//@ include units/C17/spo_theory.rs
-proof fn vf_canary_spo_theory() ensures false {}
-} // mod spo_theory
-
-pub mod stack_pointer_offsets {
+// the analysis itself (keys hash maps on il::Scalar: the key-model axiom is in scope here only)
+pub mod constants {
 use super::*;
 use super::il;
-use super::il::*;
+use super::il::{Scalar, Expression, Env, EvalR, eval_spec, expr_sane, expr_wf, expr_bits, expr_scalars, occurs};
 use super::il_subst::{replace_spec, repl_g, map_spec, map_result, env_upd, lemma_subst_eval};
 use super::executor::eval;
-use super::spo_theory::*;
 use std::collections::HashMap;
-broadcast use {location_hash::axiom_program_location_obeys_key_model};
-//@ include units/C17/spo.rs
-proof fn vf_canary_stack_pointer_offsets() ensures false {}
-} // mod stack_pointer_offsets
+use std::cmp::PartialOrd;
+use vstd::std_specs::iter::IteratorSpec;
+broadcast use {scalar_hash::axiom_scalar_obeys_key_model, vstd::std_specs::hash::axiom_random_state_builds_valid_hashers};
+//@ include units/C13/constants_core.rs
+proof fn vf_canary_constants() ensures false {}
+} // mod constants
 
 proof fn vf_canary_root() ensures false {}
 
